@@ -357,6 +357,19 @@ RULESETS = {
     "pade": PADE,
     "padeb": PADE_B,
     "expm_tail": EXPM_TAIL,
+    "suwrap": [
+        Rule("wrap.get.v", r'(?<![\w.>])v\.GetGSLMatrix\s*\(\s*(\w+)\s*\)\s*;', r'su_GetGSLMatrix_into(v,\1);'),
+        Rule("wrap.get.new", r'const\s+SU_vector&\s*suv1\s*=\s*\*\s*this\s*;\s*auto\s+m\s*=\s*suv1\.GetGSLMatrix\s*\(\s*\)\s*;', 'gsl_matrix_complex* m=su_GetGSLMatrix_new(self);'),
+        Rule("wrap.get.self", r'(?<![\w.>])GetGSLMatrix\s*\(\s*(\w+)\s*\)\s*;', r'su_GetGSLMatrix_into(self,\1);'),
+        Rule("wrap.mget", r'\bm\.get\(\)', 'm'),
+        Rule("wrap.scale", r'\bgsl_matrix_complex_scale\s*\(', 'gsl_matrix_complex_scale_h('),
+        Rule("wrap.expm", r'\bmath_detail::matrix_exponential\s*\(', 'sq_matrix_exponential('),
+        Rule("wrap.ucmu", r'\bgsl_matrix_complex_change_basis_UCMU\s*\(\s*([^,()]+?)\s*,\s*([^,()]+?)\s*\)', r'sq_UCMU(MPTR(\1),MPTR(\2))'),
+        Rule("wrap.iucmu", r'\bgsl_matrix_complex_change_basis_IUCMU\s*\(\s*([^,()]+?)\s*,\s*([^,()]+?)\s*\)', r'sq_IUCMU(MPTR(\1),MPTR(\2))'),
+        Rule("wrap.ret.move", r'return\s+SU_vector\s*\(\s*std::move\s*\(\s*m\s*\)\s*\)\s*;', 'su_ctor_matrix(ret,m); return;'),
+        Rule("wrap.ret", r'return\s+SU_vector\s*\(\s*(\w+)\s*\)\s*;', r'su_ctor_matrix(ret,\1); return;'),
+        Rule("wrap.dim", r'(?<![\w.>])dim\b', 'self->dim', min=1),
+    ],
     "wrot": [
         Rule("wr.ctor", r'SU_vector\s+suv\s*\(\s*dim\s*\)\s*;', 'struct SU_vector suv; su_ctor_sized(&suv,self->dim);', min=1),
         Rule("wr.copy", r'(?<![\w.>])suv\s*=\s*\*\s*this\s*;', 'su_assign(&suv,self);', min=1),
